@@ -290,6 +290,54 @@ def argparse_table(tree, func):
     return rows
 
 
+def find_function(tree, cls, func):
+    body = find_class(tree, cls).body if cls else tree.body
+    for n in body:
+        if isinstance(n, ast.FunctionDef) and n.name == func:
+            return n
+    raise Unsupported('function %s not found' % func)
+
+
+def dict_table(fn):
+    """the one dict literal with constant string keys of a function: (key, source text of the value), in order"""
+    ds = [d for d in ast.walk(fn) if isinstance(d, ast.Dict) and d.keys
+          and all(isinstance(k, ast.Constant) and isinstance(k.value, str) for k in d.keys)]
+    if len(ds) != 1:
+        raise Unsupported('%s: %d dict literals with constant keys' % (fn.name, len(ds)))
+    return [(k.value, ast.unparse(v)) for k, v in zip(ds[0].keys, ds[0].values)]
+
+
+def default_table(fn):
+    """the parameters of a function that have a constant default: (name, repr of the default)"""
+    args = fn.args.args
+    out = []
+    for a, d in zip(args[len(args) - len(fn.args.defaults):], fn.args.defaults):
+        if not isinstance(d, ast.Constant):
+            raise Unsupported('%s: default of %s' % (fn.name, a.arg))
+        out.append((a.arg, d.value if isinstance(d.value, str) else repr(d.value)))
+    return out
+
+
+def doc_list(text, after):
+    """the bullet list that follows the line `after` in a markdown file: the first word of every item (a link
+    `[word](...)` counts as the word)"""
+    lines = text.split('\n')
+    if after not in lines:
+        raise Unsupported('line %r not found' % after)
+    i = lines.index(after) + 1
+    while i < len(lines) and not lines[i].strip():
+        i += 1
+    out = []
+    while i < len(lines) and lines[i].lstrip().startswith('- '):
+        item = lines[i].lstrip()[2:].strip()
+        word = item[1:item.index(']')] if item.startswith('[') and ']' in item else item.split(' ')[0]
+        out.append(word)
+        i += 1
+    if not out:
+        raise Unsupported('no list after %r' % after)
+    return out
+
+
 def lean_list(xs):
     return '[' + ', '.join(xs) + ']'
 
@@ -300,7 +348,8 @@ def q(s):
 
 def translate(spec, repo):
     out = ['/- GENERATED by tools/py2lean_fields.py — do not edit.  Sources: %s -/' %
-           ', '.join(sorted({c['source'] for c in spec['classes'] + spec.get('argparse', [])})),
+           ', '.join(sorted({c['source'] for c in spec['classes'] + spec.get('argparse', []) + spec.get('dict_tables', [])
+                             + spec.get('doc_lists', []) + spec.get('list_attrs', [])})),
            'namespace %s' % spec['namespace'], '',
            '/-- the field lists of one class, as read from the source -/',
            'structure ClassInfo where',
@@ -339,6 +388,32 @@ def translate(spec, repo):
         out.append('/-- the options of `%s` (%s): flag, action, default, dest -/' % (a['function'], a['source']))
         out.append('def %s : List (String × String × String × String) := %s' % (
             a['name'], lean_list('(%s, %s, %s, %s)' % tuple(q(x) for x in r) for r in rows)))
+        out.append('')
+    for a in spec.get('dict_tables', []):
+        fn = find_function(ast.parse(open(os.path.join(repo, a['source'])).read()), a.get('class'), a['function'])
+        out.append('/-- the dict literal of `%s` (%s): key, source text of the value -/' % (a['function'], a['source']))
+        out.append('def %s : List (String × String) := %s' % (
+            a['name'], lean_list('(%s, %s)' % (q(k), q(v)) for k, v in dict_table(fn))))
+        out.append('')
+        if a.get('defaults'):
+            out.append('/-- the parameters of `%s` with a constant default -/' % a['function'])
+            out.append('def %s : List (String × String) := %s' % (
+                a['defaults'], lean_list('(%s, %s)' % (q(k), q(v)) for k, v in default_table(fn))))
+            out.append('')
+    for a in spec.get('list_attrs', []):
+        fn = find_function(ast.parse(open(os.path.join(repo, a['source'])).read()), a.get('class'), a['function'])
+        hits = [n for n in ast.walk(fn) if isinstance(n, ast.Assign) and len(n.targets) == 1
+                and self_attr(n.targets[0]) == a['attr']]
+        if len(hits) != 1 or not isinstance(hits[0].value, ast.List) \
+                or not all(isinstance(e, ast.Constant) and isinstance(e.value, str) for e in hits[0].value.elts):
+            raise Unsupported('%s: self.%s is not assigned one list of strings' % (a['function'], a['attr']))
+        out.append('/-- `self.%s` as assigned in `%s` (%s) -/' % (a['attr'], a['function'], a['source']))
+        out.append('def %s : List String := %s' % (a['name'], lean_list(q(e.value) for e in hits[0].value.elts)))
+        out.append('')
+    for a in spec.get('doc_lists', []):
+        items = doc_list(open(os.path.join(repo, a['source'])).read(), a['after'])
+        out.append('/-- the list after %s in %s -/' % (json.dumps(a['after']), a['source']))
+        out.append('def %s : List String := %s' % (a['name'], lean_list(q(x) for x in items)))
         out.append('')
     out.append('end %s' % spec['namespace'])
     return '\n'.join(out) + '\n'
